@@ -741,8 +741,30 @@ func (P *Prog) checkProviderNonNil(r *Result, rule string) {
 					}
 				case *ssa.MakeInterface, *ssa.Alloc:
 					sources = append(sources, "concrete provider")
+				case *ssa.Parameter:
+					// a provider handed to an unexported helper: whatever its call sites pass
+					g := x.Parent()
+					if sites, closed := P.closedCallSites(g); closed {
+						for i, q := range g.Params {
+							if q != x {
+								continue
+							}
+							for _, site := range sites {
+								if i < len(site.Common().Args) {
+									walk(site.Common().Args[i], d+1)
+								}
+							}
+						}
+					}
 				case *ssa.UnOp:
-					if al, ok := x.X.(*ssa.Alloc); ok {
+					addr := x.X
+					// (a variable of the enclosing function read by a closure: whatever is stored into it anywhere)
+					if fv, ok := addr.(*ssa.FreeVar); ok {
+						if b := freeVarBinding(fv); b != nil {
+							addr = b
+						}
+					}
+					if al, ok := addr.(*ssa.Alloc); ok {
 						for _, st := range storesTo(al) {
 							walk(st.Val, d+1)
 						}
